@@ -189,10 +189,22 @@ fn find_in_items<'a>(items: &'a [Item], segs: &[String], out: &mut Vec<Found>) {
         }
         return;
     }
-    let pat = squash(&segs[0]);
+    let words: Vec<&str> = segs[0].split_whitespace().collect();
     for it in items {
         if let Some((hdr, _)) = header_of_item(it) {
-            if !hdr.contains(&pat) {
+            // every word of the pattern must occur in the header, in order
+            let mut pos = 0usize;
+            let mut ok = true;
+            for w in &words {
+                match hdr[pos..].find(w) {
+                    Some(k) => pos += k + w.len(),
+                    None => {
+                        ok = false;
+                        break;
+                    },
+                }
+            }
+            if !ok {
                 continue;
             }
             match it {
@@ -958,7 +970,29 @@ fn main() {
     let mut report: Vec<serde_json::Value> = vec![];
     let mut includes: Vec<String> = vec![];
 
-    let lines: Vec<&str> = text.lines().collect();
+    // splice //@include files (recursively) so that they may contain directives themselves
+    fn splice(text: &str, verif_dir: &str, includes: &mut Vec<String>, depth: usize) -> Vec<String> {
+        if depth > 8 {
+            die("include depth");
+        }
+        let mut out = vec![];
+        for l in text.lines() {
+            if let Some(rest) = l.trim_start().strip_prefix("//@include") {
+                let rest = rest.trim();
+                let p = format!("{}/{}", verif_dir, rest);
+                let inc = std::fs::read_to_string(&p).unwrap_or_else(|e| die(&format!("cannot include {p}: {e}")));
+                includes.push(rest.to_string());
+                out.push(format!("// ---- include {rest} ----"));
+                out.extend(splice(&inc, verif_dir, includes, depth + 1));
+                out.push(format!("// ---- end include {rest} ----"));
+            } else {
+                out.push(l.to_string());
+            }
+        }
+        out
+    }
+    let owned_lines = splice(&text, &verif_dir, &mut includes, 0);
+    let lines: Vec<&str> = owned_lines.iter().map(|s| s.as_str()).collect();
     let mut li = 0;
     let mut cur: Option<UnitSpec> = None;
     let mut cur_anchor: Option<String> = None; // "spec" or anchor key
@@ -974,12 +1008,7 @@ fn main() {
             };
             match cmd {
                 "include" => {
-                    let p = format!("{}/{}", verif_dir, rest);
-                    let inc = std::fs::read_to_string(&p).unwrap_or_else(|e| die(&format!("cannot include {p}: {e}")));
-                    out.push_str(&format!("// ---- include {rest} ----\n"));
-                    out.push_str(&inc);
-                    out.push_str(&format!("// ---- end include {rest} ----\n"));
-                    includes.push(rest.to_string());
+                    die("internal: include should have been spliced");
                 },
                 "macros" => {
                     let kv = parse_kv(rest);
